@@ -375,7 +375,7 @@ def parameterized_system_reuse(inp):
 
 
 # thorough tier (bounded native sweeps): (function, inputs, obligation of the open finding it reproduces or None)
-THOROUGH = [('history', {}, None), ('arrays', {}, None), ('stored_arrays', {}, None), ('parameterized_system_reuse', {}, None), ('pt_tebd_snapshot', {}, None)]
+THOROUGH = [('history', {}, None), ('arrays', {}, None), ('stored_arrays', {}, None), ('parameterized_system_reuse', {}, None), ('pt_tebd_snapshot', {}, None), ('parameterized_system_lists', {}, None)]
 
 
 def pt_tebd_snapshot(inp):
@@ -422,3 +422,18 @@ def pt_tebd_snapshot(inp):
     chain.add_site_hamiltonian(0, 2.0 * sz)
     compare('PtTebd(...); chain.add_site_hamiltonian(0, ..); compute(6)', tebd.compute(6, progress_type='silent'))
     return {'violates': bool(bad), 'detail': bad[:4]}
+
+
+def parameterized_system_lists(inp):
+    """ParameterizedSystem(h, gammas=g, lindblad_operators=l): editing the caller's lists g / l afterwards must not change the system"""
+    import oqupy
+    sx, sz = oqupy.operators.sigma('x'), oqupy.operators.sigma('z')
+    g = [lambda a: 0.1 + 0 * a]
+    l = [lambda a: sz + 0 * a]
+    ps = oqupy.ParameterizedSystem(lambda a: 0.5 * a * sx, gammas=g, lindblad_operators=l)
+    before = np.array(ps.liouvillian(0.3))
+    g[0] = lambda a: 5.0 + 0 * a
+    l[0] = lambda a: sx + 0 * a
+    after = np.array(ps.liouvillian(0.3))
+    dev = float(np.abs(after - before).max())
+    return {'violates': dev > 1e-12, 'detail': {'liouvillian changed by': dev, 'history': 'ParameterizedSystem(.., gammas=g, ..); g[0] = other; l[0] = other'}}
